@@ -107,7 +107,7 @@ class PointEngine(Engine):
     expected_probes = ['history_len_ge_3', 'select_by_image', 'select_by_rel', 'select_negative_id', 'refused_absent',
                        'refused_ambiguous', 'refused_occupied', 'refused_occupied_image', 'allowed_nonperiodic_image',
                        'differential_alternatives', 'kwargs_given', 'origin_nonzero_scaled_db', 'one_atom_system',
-                       'integer_pos_input', 'old_id_composed', 'scribbled_results', 'working_units_changed', 'dumbbell_vector_object_reused', 'working_units_from_seed', 'explicit_zero_tolerance', 'box_changed_through_the_box_object', 'refused_index_out_of_range', 'scale_flag_as_numpy_bool']
+                       'integer_pos_input', 'old_id_composed', 'scribbled_results', 'working_units_changed', 'dumbbell_vector_object_reused', 'working_units_from_seed', 'explicit_zero_tolerance', 'box_changed_through_the_box_object', 'refused_index_out_of_range', 'keyword_value_broadcast_shorthand', 'keyword_naming_no_property', 'scale_flag_as_numpy_bool']
     rule = ('Each run builds a base System (LAMMPS-oriented or rotated cell, any origin, any periodicity, 1-24 atoms with '
             'pairwise periodic separation >= 0.5 A, optionally one deliberately ambiguous pair 0.3*atol apart, 1-3 atom '
             'types, 0-3 extra per-atom properties of rank 0-2, optionally integer lattice coordinates) and applies a '
@@ -289,6 +289,8 @@ class PointEngine(Engine):
                     v = self._draw(r, cls, ts)
                     kw[k] = v.tolist() if isinstance(v, np.ndarray) else v
             op['kwargs'] = kw
+            op['shorthand'] = [k for k in kw if r.random() < 0.35]
+            op['unknown_kw'] = r.random() < 0.15
         if kind == 'i':
             op['atype'] = r.choice([None, 1, 2, 3, 4])
         if kind == 's':
@@ -443,8 +445,21 @@ class PointEngine(Engine):
         if sel in ('pos', 'rel', 'near', 'image', 'image_rel') and op['pos_as'] == 'intlist' and all(isinstance(x, int) for x in kw['pos']):
             ctx.probe('integer_pos_input')
         call_kw = dict(kw)
-        for k2, v in kwargs.items():
-            call_kw[k2] = np.array(v) if isinstance(v, list) else v
+        short = set(op.get('shorthand') or [])
+        for k2, v in list(kwargs.items()):
+            ts2 = m.reg[k2][1]
+            if k2 in short and ts2 and kind != 'v':
+                # one number for every component of a vector / tensor property (numpy broadcasting, as in atoms.velocity = 0.0)
+                v0 = np.array(v).reshape(-1)[0].item()
+                kwargs[k2] = np.full(ts2, v0).tolist()
+                call_kw[k2] = v0
+                ctx.probe('keyword_value_broadcast_shorthand')
+            else:
+                call_kw[k2] = np.array(v) if isinstance(v, list) else v
+        if op.get('unknown_kw') and kind in ('i', 's', 'db'):
+            # a keyword that names no per-atom property of this system: documented as ignored
+            call_kw['magmom'] = 1.5
+            ctx.probe('keyword_naming_no_property')
         if kind == 'i' and op.get('atype') is not None:
             call_kw['atype'] = int(op['atype'])
         if kind == 's':
